@@ -303,7 +303,7 @@ pub fn dev_strategy() -> BoxedStrategy<DevSpec> {
 pub struct C08;
 impl Property for C08 {
     const ID: &'static str = "C08";
-    const RULE: &'static str = "devices: Invert, GearTrain (ratio in +-[1e-2,1e2] or tooth lists of length 2..6), Axle<0..6>, Differential x 4 distrust modes; each device terminal optionally connected to an external terminal; 1..8 rounds in which every device terminal independently receives a new finite state through its own slot, through the external terminal, through both or not at all (timestamps fresh per round with random offsets; in a quarter of the scenarios later rounds carry older timestamps), then update(). Oracle per update, relative to the states read at the terminals just before it: least-squares projection in f64 with a running f32 error bound (x4), exact formulas for one-sided propagation and recomputed differential branches, newest contributing timestamp, constraint re-checked on the written own slots independently of the projection, nothing written when the statement says so (no data / untrusted data missing; the informed side of a one-sided update is left alone). Non-trivial = a round in which >= 2 terminals hold differing data that violate the constraint; distinct = (device, per-terminal feed pattern per round).";
+    const RULE: &'static str = "(plus enumerated three-round scenarios whose readings satisfy each device shape's constraint exactly) devices: Invert, GearTrain (ratio in +-[1e-2,1e2] or tooth lists of length 2..6), Axle<0..6>, Differential x 4 distrust modes; each device terminal optionally connected to an external terminal; 1..8 rounds in which every device terminal independently receives a new finite state through its own slot, through the external terminal, through both or not at all (timestamps fresh per round with random offsets; in a quarter of the scenarios later rounds carry older timestamps), then update(). Oracle per update, relative to the states read at the terminals just before it: least-squares projection in f64 with a running f32 error bound (x4), exact formulas for one-sided propagation and recomputed differential branches, newest contributing timestamp, constraint re-checked on the written own slots independently of the projection, nothing written when the statement says so (no data / untrusted data missing; the informed side of a one-sided update is left alone). Non-trivial = a round in which >= 2 terminals hold differing data that violate the constraint; distinct = (device, per-terminal feed pattern per round).";
     type Scenario = Scenario;
     fn strategy(_tier: Tier) -> BoxedStrategy<Scenario> {
         dev_strategy()
@@ -340,7 +340,28 @@ impl Property for C08 {
                 n += 1;
             }
         }
-        vec![format!("every own/partner data-presence pattern of every terminal for 13 device shapes, two identical rounds ({} scenarios)", n)]
+        // readings that already satisfy the constraint exactly (values exact in f32), arriving through the connected terminals
+        // only and then through the own slots only: the device's terminals must hold them after the update, round after round
+        let consistent: Vec<(DevSpec, Vec<[f32; 3]>)> = vec![
+            (DevSpec::Invert, vec![[2.0, -1.0, 0.5], [-2.0, 1.0, -0.5]]),
+            (DevSpec::Gear(2.5), vec![[2.0, 4.0, -8.0], [5.0, 10.0, -20.0]]),
+            (DevSpec::Gear(-0.5), vec![[2.0, 4.0, -8.0], [-1.0, -2.0, 4.0]]),
+            (DevSpec::Axle(3), vec![[1.5, -2.0, 0.25]; 3]),
+            (DevSpec::Diff(0), vec![[2.0, 1.0, 0.5], [3.0, -4.0, 0.25], [5.0, -3.0, 0.75]]),
+            (DevSpec::Diff(1), vec![[2.0, 1.0, 0.5], [3.0, -4.0, 0.25], [5.0, -3.0, 0.75]]),
+            (DevSpec::Diff(2), vec![[2.0, 1.0, 0.5], [3.0, -4.0, 0.25], [5.0, -3.0, 0.75]]),
+            (DevSpec::Diff(3), vec![[2.0, 1.0, 0.5], [3.0, -4.0, 0.25], [5.0, -3.0, 0.75]]),
+        ];
+        let mut m = 0u64;
+        for (dev, vals) in consistent {
+            let k = dev.terminals();
+            for via_partner in [true, false] {
+                let round = |scale: f32, t0: u8| -> Vec<Feed> { (0..k).map(|i| { let v = vals[i].map(|x| x * scale); let d = Some((v, t0 + i as u8)); if via_partner { Feed { own: None, partner: d } } else { Feed { own: d, partner: None } } }).collect() };
+                sink(Scenario { dev: dev.clone(), linked: vec![true; k], rounds: vec![round(1.0, 1), round(2.0, 11), round(2.0, 21)], time_base: 0, backwards: false });
+                m += 1;
+            }
+        }
+        vec![format!("every own/partner data-presence pattern of every terminal for 13 device shapes, two identical rounds ({} scenarios)", n), format!("{} scenarios of three rounds of readings that satisfy the constraint exactly, through the connected terminals or the own slots", m)]
     }
     fn check(s: &Scenario) -> CheckResult {
         check(s)
